@@ -83,6 +83,9 @@ pub fn trace_run_opt(p: &Program, cfg: &Config, keep: bool) -> (LoomRun, Trace) 
         }
     }
     let t = std::mem::take(&mut *tr.borrow_mut());
+    if std::env::var("VERIF_DEBUG_DIRTY").is_ok() {
+        eprintln!("trace_run: status {:?} iterations {} max_branches {} panicking_after {}", status_text(&run.status), run.iterations, cfg.max_branches, std::thread::panicking());
+    }
     (run, t)
 }
 
